@@ -87,6 +87,7 @@ def gen(seed, tier):
         # blocked thread payloads, however many, must not use up what those calls need
         for fl_ in rng.sample(["asyncio", "trio"], rng.choice([1, 2])):
             payloads.append({"id": "hopper-" + fl_, "flavour": fl_, "via": "queued", "steps": [["sleep", rng.choice([0.1, 1.0, 1.5])], ["hop", rng.choice([1, 3]), 0.2], ["block"]]})
+    end_index = len(dscript)
     if rng.random() < 0.1:
         # the runtime ends because a payload interrupts (the event loop is stopped, then driven again
         # by asyncio.run to clean up) while another thread calls shutdown(): whoever resumes the
@@ -108,14 +109,48 @@ def gen(seed, tier):
         # other runners try to accept while this one is active: each attempt is refused, so there is
         # still one event loop and one trio run for everything created afterwards
         drivers.append({"id": "d1", "script": [["wait-running"]] + [x for _ in range(rng.choice([1, 2, 3])) for x in (["sleep", rng.choice([0.0, 0.05])], ["accept-second"])]})
-    return {"prop": "C11", "seed": seed, "knobs": knobs, "payloads": payloads, "drivers": drivers, "grace": 0.5}
+    second = None
+    if rng.random() < 0.1:
+        # a second run in the same process, with a new runner, once the first one has ended - by an interrupt,
+        # more often than not - while it had coroutine payloads with clean-up still to do: whatever belongs to
+        # the first run is over before anything of the second one begins (one loop, one trio run at a time)
+        how = rng.choice(["sigint", "sigint", "ki", "exit", "shutdown"])
+        ending = [["sleep", rng.choice([1.0, 2.0])]]
+        if how == "sigint":
+            ending += [["sigint"]]
+        elif how == "shutdown":
+            ending += [["shutdown"]]
+        else:
+            payloads.append({"id": "kiboom2", "flavour": rng.choice(FL), "via": "adopt", "steps": [["raise", "KeyboardInterrupt" if how == "ki" else "SystemExit"]]})
+            ending += [["adopt", "kiboom2"]]
+        del dscript[end_index:]
+        dscript += ending
+        payloads[:] = [p for p in payloads if p["id"] != "kiboom"]
+        for fl_ in ("trio", "asyncio"):
+            spec = {"id": "keeper-" + fl_, "flavour": fl_, "via": "queued", "steps": [["hb", 0.25, None, 2]], "cleanup_sync": rng.choice([1, 3])}
+            if fl_ == "trio":
+                spec["cleanup_async"] = rng.choice([0.5, 2.0])
+            payloads.append(spec)
+        payloads.append({"id": "s2t", "flavour": "trio", "via": "queued", "phase": 1, "steps": [["hb", 0.1, 12, 3]]})
+        payloads.append({"id": "s2a", "flavour": "asyncio", "via": "queued", "phase": 1, "steps": [["hb", 0.1, 12, 3]]})
+        payloads.append({"id": "s2stop", "flavour": "threading", "via": "queued", "phase": 1, "steps": [["sleep", 1.5], ["shutdown"]]})
+        second = {"how": how, "gap": rng.choice([0.0, 0.0, 0.05])}
+    return {"prop": "C11", "seed": seed, "knobs": knobs, "payloads": payloads, "drivers": drivers, "second": second, "grace": 0.5}
 
 
 def main(h):
     r = h.new_runner()
-    h.pre_start(r)
+    sec = h.sc.get("second")
+    h.pre_start(r, phase=0 if sec else None)
     h.start_drivers()
     h.run_accept(r)
+    if sec:
+        time.sleep(sec.get("gap", 0.0))
+        r2 = h.new_runner()
+        S.count_fault("second-run-after-%s" % sec.get("how"))
+        h.ev("phase", phase=1)
+        h.pre_start(r2, phase=1)
+        h.run_accept(r2)
     time.sleep(h.sc.get("grace", 0.5))
 
 
@@ -144,17 +179,43 @@ def check(h, reason):
             b = begun.pop((e["pid"], e["k"]), None)
             if b is not None and e["t"] - b["t"] > 1.0:
                 V("C11/thread-hop-late/%s" % specs[e["pid"]]["flavour"], "%s payload %s: a no-op on a worker thread took %.2fs" % (specs[e["pid"]]["flavour"], e["pid"], e["t"] - b["t"]))
+    # (a hop that was under way when the runtime began to go down is cancelled with its payload)
+    term = next((e for e in ev if e["kind"] in ("sigint-sent", "shutdown-call", "stop-call") or (e["kind"] == "raise" and e.get("exc") in ("KeyboardInterrupt", "SystemExit"))), None)
     for (pid_, k_), b in sorted(begun.items()):
-        if S.now - b["t"] > 1.0:
+        if (term["t"] if term is not None else S.now) - b["t"] > 1.0:
             V("C11/thread-hop-stalled/%s" % specs[pid_]["flavour"], "%s payload %s handed a no-op to a worker thread at t=%.2f and was still waiting %.2fs later (%d thread payloads blocked)" % (specs[pid_]["flavour"], pid_, b["t"], S.now - b["t"], sum(1 for x in ev if x["kind"] == "blocking" and specs.get(x.get("pid"), {}).get("flavour") == "threading")))
     # 1. overlap detector
     for e in ev:
         if e["kind"] == "overlap" and e["flavour"] in ("asyncio", "trio"):
             V("C11/overlap/%s" % e["flavour"], "two %s payloads were inside their synchronous sections at the same time (payload %s entered at depth %d, sim thread %d)" % (e["flavour"], e["pid"], e["depth"], e["sid"]))
-    # 2. one loop / one run / one thread per flavour
+    # 2. one loop / one run / one thread per flavour - per run of the runtime; and nothing of an earlier
+    #    run is still going when a later one starts its first payload of that flavour
+    p1 = next((e["seq"] for e in ev if e["kind"] == "phase" and e.get("phase") == 1), None)
+    all_ctxs = []
+    if p1 is not None:
+        for fl in ("asyncio", "trio"):
+            first2 = next((e for e in ev if e["seq"] > p1 and e["kind"] == "start" and specs.get(e.get("pid"), {}).get("flavour") == fl and specs[e["pid"]].get("phase") == 1), None)
+            if first2 is None:
+                continue
+            last_start = {}
+            for e in ev:
+                pid_ = e.get("pid")
+                if e["kind"] == "start" and pid_ in specs:
+                    last_start[pid_] = e["seq"]
+                # (a payload executed on behalf of a surviving thread payload of the first run belongs to the second run)
+                if e["seq"] > first2["seq"] and pid_ in specs and specs[pid_]["flavour"] == fl and specs[pid_].get("phase", 0) == 0 and last_start.get(pid_, 0) < p1 and e["kind"] in ("hb", "step", "cleanup-step", "cleanup-async-done", "finished", "cancelled"):
+                    V("C11/runs-overlap/%s" % fl, "%s payload %s of the first run executed '%s' at t=%.3f (sim thread %s) after the second run had started %s payload %s at t=%.3f (sim thread %s): two %s contexts are alive at once" % (fl, pid_, e["kind"], e["t"], e["sid"], fl, first2["pid"], first2["t"], first2["sid"], fl))
+                    break
     ctxs = {"asyncio": set(), "trio": set(), "threading": set()}
     modes = {"asyncio": set(), "trio": set()}
     for e in ev:
+        if p1 is not None and e["seq"] > p1 and ctxs is not None and not all_ctxs:
+            # the second run has a loop and a trio run of its own
+            all_ctxs.append(ctxs)
+            for fl in ("asyncio", "trio"):
+                if len(ctxs[fl]) > 1:
+                    V("C11/many-contexts/%s" % fl, "%s payloads ran in several (loop/run, thread) contexts: %r" % (fl, sorted(map(str, ctxs[fl]))))
+            ctxs = {"asyncio": set(), "trio": set(), "threading": set(ctxs["threading"])}
         if e["kind"] == "start" and e["pid"] in specs:
             fl = specs[e["pid"]]["flavour"]
             c = e["ctx"]
@@ -174,6 +235,9 @@ def check(h, reason):
     for fl in ("asyncio", "trio"):
         if len(ctxs[fl]) > 1:
             V("C11/many-contexts/%s" % fl, "%s payloads ran in several (loop/run, thread) contexts: %r" % (fl, sorted(map(str, ctxs[fl]))))
+    for prev in all_ctxs:  # the threads of the first run's loops count as loop threads throughout
+        for fl in ("asyncio", "trio"):
+            ctxs[fl] = ctxs[fl] | prev[fl]
     loop_sids = {c[1] for fl in ("asyncio", "trio") for c in ctxs[fl]}
     if ctxs["asyncio"] and {c[1] for c in ctxs["asyncio"]} != {h.accept_sid}:
         V("C11/asyncio-not-on-accept-thread", "asyncio payloads ran on sim threads %r, accept() runs on %r" % (sorted(c[1] for c in ctxs["asyncio"]), h.accept_sid))
